@@ -3,6 +3,7 @@ package main
 import (
 	"encoding/json"
 	"fmt"
+	"github.com/wolimst/lib-secs2-hsms-go/pkg/ast"
 	"os"
 	"path/filepath"
 	"regexp"
@@ -71,6 +72,10 @@ func lineLengths(s string) []int {
 	return append(out, n)
 }
 
+// listWalkBudget: hook H4's bound on ListNode.Variables() calls during one parse of n input bytes. A nest of depth d
+// costs about d^2 walks on this tree (every enclosing list looks at its whole subtree when it is built); d <= n/2.
+func listWalkBudget(n int) int64 { return 100000 + 2*int64(n)*int64(n) }
+
 type stepStats struct {
 	inputLen             int
 	nexts, states, peeks int64
@@ -85,10 +90,13 @@ func smlWorker(w *iso.Worker) {
 	}
 	shapes := map[string]bool{}
 	var m0, m1 runtime.MemStats
+	ast.VerifCountListWalks = true // hook H4: this worker is single-goroutine
 	for i, j := range w.Jobs {
 		w.Begin(i)
 		in := string(j.Input)
 		last = stepStats{}
+		ast.VerifListWalks = 0
+		ast.VerifListWalkBudget = listWalkBudget(len(in))
 		escaped := ""
 		var budget *sml.VerifBudgetExceeded
 		var nmsg int
@@ -129,6 +137,15 @@ func smlWorker(w *iso.Worker) {
 				what = fmt.Sprintf("%s: %d calls > budget %d for a %d-byte input", budget.What, budget.Count, budget.Budget, budget.InputLen)
 			}
 			report("C06/step-budget-exceeded", what)
+		}
+		// hook H4: work done inside package ast while lists are built and checked (the parser's own counters do not see
+		// it): at most quadratic in the input length
+		w.Max("ast_list_walks_per_len2", float64(ast.VerifListWalks)/float64((len(in)+8)*(len(in)+8)))
+		if ast.VerifListWalks > ast.VerifListWalkBudget {
+			report("C06/list-walk-budget-exceeded", fmt.Sprintf("more than %d list walks in package ast for a %d-byte input (budget 100000 + 2*len^2)", ast.VerifListWalkBudget, len(in)))
+		}
+		if ast.VerifListWalks > 0 {
+			w.Classes["hook-H4-reached"]++
 		}
 		if !last.seen {
 			w.Classes["hook-not-reached"]++
@@ -354,6 +371,30 @@ func c06InitialJobs(c *ctx, r *rng.R) []iso.Job {
 	for _, d := range []int{10, 1000, c.pick(20000, 100000)} {
 		add("nesting", c06Recipe(fmt.Sprintf("nest-unclosed %d", d)), "")
 	}
+	// nests that carry something at the bottom or beside every level: a variable of each kind, an ellipsis, an error
+	// (work per level that depends on what the subtree holds adds up; hook H4 counts it)
+	for _, d := range []int{8, 16, 20, 24, 28, 32, 48, 64, 100, c.pick(200, 1000)} {
+		for _, bottom := range []string{"<U1 x>", "x", "<A[1..3] x>", "<L <B 1> ...>", "<U1 300>", "<BOOLEAN T v w>", "<F4 1.5> y", "<L[3]>"} {
+			for _, beside := range []string{"", "<U1 7>", "v%d"} {
+				var sb strings.Builder
+				sb.WriteString("S1F1 W H->E ")
+				for i := 0; i < d; i++ {
+					sb.WriteString("<L ")
+					if beside != "" && i > 0 {
+						if strings.Contains(beside, "%d") {
+							fmt.Fprintf(&sb, beside+" ", i)
+						} else {
+							sb.WriteString(beside + " ")
+						}
+					}
+				}
+				sb.WriteString(bottom)
+				sb.WriteString(strings.Repeat(">", d))
+				sb.WriteString(" .")
+				add("nest-with-content", sb.String(), "")
+			}
+		}
+	}
 	n := c.pick(90000, 900000)
 	maxLen := c.pick(64<<10, 1<<20)
 	for i := 0; i < n; i++ {
@@ -572,7 +613,7 @@ func runC06(c *ctx) {
 		shapeList = shapeList[:120]
 	}
 	c.Extra["diagnostic_shapes"] = shapeList
-	c.Required = []string{"family/token-soup", "family/valid-sequence", "family/mutated-valid", "family/random-bytes", "family/duplicate-variable", "family/exotic-space", "family/hostile-fragment", "family/nesting", "family/coverage-guided", "hook-reached", "accepted", "rejected", "order-checked"}
+	c.Required = []string{"family/token-soup", "family/valid-sequence", "family/mutated-valid", "family/random-bytes", "family/duplicate-variable", "family/exotic-space", "family/hostile-fragment", "family/nesting", "family/nest-with-content", "family/coverage-guided", "hook-reached", "hook-H4-reached", "accepted", "rejected", "order-checked"}
 }
 
 func replayC06(c *ctx, raw json.RawMessage) {
